@@ -224,6 +224,7 @@ class RunResult:
         self.status = None      # 0, int exit code, or "exc:<Type>"
         self.exc = None
         self.tb = None
+        self.error_class = None
         self.stdout = None
         self.stderr = None
         self.kernel = None
@@ -320,6 +321,9 @@ def invoke(func, ns, cwd, kernel=None, env=None, stdin_text=None, timeout=25):
             except SystemExit as ex:
                 code = ex.code
                 res.status = 0 if code is None else (code if isinstance(code, int) else 1)
+                c = ex.__context__
+                if c is not None:        # the ConductorError that cli_command reported
+                    res.error_class = type(c).__name__
             except fakeos.Deadlock as ex:
                 res.status = "deadlock"
                 res.exc = repr(ex)
